@@ -65,7 +65,7 @@ def gen_dry_study(rng, i):
         st["restart"] = rng.random() < 0.45
     h, u, t, a = MATRIX[(i * 7) % len(MATRIX)]
     case.update({"hashws": h, "usetmp": u, "throttle": t, "attempts": a, "rlimit": rng.choice([0, 1, 2]),
-                 "kind": "dry"})
+                 "kind": "dry", "ospell": e2e.pick_ospell(rng)})
     # confirmation flags x launch path: on the unchanged tree --dry implies "launch" whatever -y / -n say
     conf, det = [(c, dd) for c in ("-y", "", "-n") for dd in (False, True)][(i + i // 6) % 6]
     case.update({"conf": conf, "detached": det})
@@ -113,12 +113,14 @@ def run_pair(job):
         conf = case.get("conf", "-y") if which == "dry" else "-y"
         argv = ["run"] + (["--dry"] if which == "dry" else []) + \
                ["-fg"] + ([conf] if conf else []) + ["-s", e2e.POLL_SLEEP, "--attempts", case["attempts"], "--rlimit", case["rlimit"],
-                "--throttle", case["throttle"], "-o", out]
+                "--throttle", case["throttle"]]
+        oarg, sarg, cwd = e2e.spell_out(case, d, sub=which)      # -o / spec possibly relative, cwd accordingly
+        argv += ["-o", oarg]
         if case["hashws"]:
             argv.append("--hashws")
         if case["usetmp"]:
             argv.append("--usetmp")
-        argv.append("spec.yaml")
+        argv.append(sarg)
         if which == "real":
             try:
                 os.rename(os.path.join(d, "ran.log"), os.path.join(d, "ran.dry.log"))   # what the DRY run executed
@@ -134,7 +136,7 @@ def run_pair(job):
                 f.write("#!/bin/sh\necho stub-conductor \"$@\" >> %s\nexit 0\n" % os.path.join(d, "stub.log"))
             os.chmod(os.path.join(bind, "conductor"), 0o755)
             argv0 = [a for a in argv if a != "-fg"]
-            rc0, tail0 = e2e.launch("maestro", argv0, d, {"PATH": bind + os.pathsep + os.environ.get("PATH", ""),
+            rc0, tail0 = e2e.launch("maestro", argv0, cwd, {"PATH": bind + os.pathsep + os.environ.get("PATH", ""),
                                                          "E2E_SCRIPTED": env["E2E_SCRIPTED"]},
                                     stdin_text="", logfile=os.path.join(d, "run.log"))
             import time
@@ -147,9 +149,9 @@ def run_pair(job):
             elif not os.path.exists(os.path.join(d, "stub.log")):
                 rc, tail = 98, "maestro run --dry -y did not launch a conductor: " + tail0
             else:
-                rc, tail = e2e.launch("conductor", ["-t", 1, out], d, env, logfile=os.path.join(d, "run.log"))
+                rc, tail = e2e.launch("conductor", ["-t", 1, oarg], cwd, env, logfile=os.path.join(d, "run.log"))
         else:
-            rc, tail = e2e.launch("maestro", argv, d, env, stdin_text="", logfile=os.path.join(d, "run.log"))
+            rc, tail = e2e.launch("maestro", argv, cwd, env, stdin_text="", logfile=os.path.join(d, "run.log"))
         res[which] = {"rc": rc, "tail": tail[-1200:]}
     return res
 
@@ -367,7 +369,7 @@ def judge(case, d, res):
 
 
 def slim(case):
-    return {k: case.get(k) for k in ("steps", "params", "attempts", "throttle", "rlimit", "hashws", "usetmp", "shape", "detached", "conf")}
+    return {k: case.get(k) for k in ("steps", "params", "attempts", "throttle", "rlimit", "hashws", "usetmp", "shape", "detached", "conf", "ospell")}
 
 
 def run_cases(ck, cases, tag="C17_e2e"):
@@ -399,6 +401,7 @@ def run_cases(ck, cases, tag="C17_e2e"):
         dist["hashws=%s,usetmp=%s" % (case["hashws"], case["usetmp"])] += 1
         dist["path:" + ("detached" if case.get("detached") else "foreground")] += 1
         dist["confirm:" + (case.get("conf", "-y") or "(none)")] += 1
+        dist["out_spelled:" + case.get("ospell", "abs")] += 1
         dist["throttle:%d" % case["throttle"]] += 1
         dist["attempts:%d" % case["attempts"]] += 1
         dist["instances:%02d" % min(info["instances"], 20)] += 1
